@@ -95,6 +95,31 @@ def _exception_classes():
     out["UserError"] = type("UserError", (Exception,), {})
     out["UserIndexError"] = type("UserIndexError", (IndexError,), {})
     out["UserKeyError"] = type("UserKeyError", (KeyError,), {})
+    # the library's own error classes (a predicate that calls a library helper, e.g. an event factory, raises them),
+    # and an application error derived from the library's base class
+    try:
+        import importlib
+        import pkgutil
+        import bobocep
+        for m in pkgutil.walk_packages(bobocep.__path__, "bobocep."):
+            try:
+                importlib.import_module(m.name)
+            except Exception:      # noqa (optional dependencies of a module)
+                pass
+        base = getattr(bobocep, "BoboError", None)
+        todo = [base] if isinstance(base, type) else []
+        while todo:
+            c = todo.pop()
+            todo += c.__subclasses__()
+            try:
+                c("scripted")
+            except Exception:
+                continue
+            out.setdefault(c.__name__, c)
+        if isinstance(base, type):
+            out["UserBoboError"] = type("UserBoboError", (base,), {})
+    except ImportError:
+        pass
     return out
 
 
